@@ -30,13 +30,21 @@ impl User {
             r is Ok ==> final(outbox).log == old(outbox).log.push((self.sender.id(), render(*msg, source@))), // @prop C01,C04,C09
             r is Err ==> final(outbox).log == old(outbox).log, // @prop C01
 //@end
-    // ASSUMED: one-line `self.sender.send(format!(":{} {}", source, t))` — format! is opaque to Verus
-    #[verifier::external_body]
-    pub fn send_msg_display<T: fmt::Display>(&self, source: &str, t: T, Tracked(outbox): Tracked<&mut Outbox>) -> (r: Result<(), SendError<String>>)
+//@fn state/structs.rs User::send_msg_display unit=structs props=C01,C04,C09 rules=R6,R23
+//@spec
         ensures
-            r is Ok ==> final(outbox).log == old(outbox).log.push((self.sender.id(), disp(source@, t))),
-            r is Err ==> final(outbox).log == old(outbox).log,
-    { unimplemented!() }
+            r is Ok ==> final(outbox).log == old(outbox).log.push((self.sender.id(), disp(source@, t))), // @prop C01,C04,C09
+            r is Err ==> final(outbox).log == old(outbox).log, // @prop C01
+//@open
+        proof {
+            // `format!(":{} {}", source, t)` is the line disp(source, t)
+            broadcast use display_text;
+            reveal(fmt2_text); reveal_strlit(":"); reveal_strlit(" "); reveal_strlit("");
+            assert(""@ =~= Seq::<char>::empty());
+            assert(":"@ =~= seq![':']); assert(" "@ =~= seq![' ']);
+            assert(fmt2_text(":"@, dv::<&&str>(&source), " "@, dv::<&T>(&t), ""@) =~= disp::<T>(source@, t));
+        }
+//@end
 //@fn state/structs.rs User::update_nick unit=structs props=C15
 //@spec
         ensures *final(self) == (User { source: user_state.source, ..*old(self) }), // @prop C15
